@@ -2,8 +2,22 @@
 and monitor: harness/exec_props.py (monitor family 2 of Exec/ExecTrace.v)."""
 from harness import exec_props as X
 
-BIAS = {}
-TINY = None
+# random histories: failure-heavy report mixes (FAILED / UNKNOWN / CANCELLED / TIMEDOUT well
+# represented), one submission in four fails (exhausted attempts sweep the sub-tree too),
+# cancel requests, up to 3 attempts; half of the histories are driven to completion by a fair tail
+# so that "the rest runs" (code 24) is exercised on final verdicts
+BIAS = {"profiles": ["failing", "failing", "failing", "mixed", "timeout", "faulty"],
+        "sub_ok_p": 0.75, "cancel_p": 0.05, "attempts": [1, 1, 2, 3], "max_polls": 14, "nmax": 9,
+        "fair_after": [None, 3, 5, 8]}
+# exhaustive tiny scope: every failure kind x shape pair: for every tiny graph (single, chain,
+# chain with a local child, two independent steps, funnel with two parents, fan-out) every queried
+# job gets, at every poll, absent / RUNNING / FINISHED / FAILED / TIMEDOUT / CANCELLED / UNKNOWN,
+# every submission may fail, a cancel request may arrive at any poll
+TINY = {"depth_quick": 3, "depth_thorough": 4, "graphs_quick": 6,
+        "cfgs": [{"throttle": 0, "attempts": 1, "dry": False}, {"throttle": 1, "attempts": 2, "dry": False}],
+        "enum": {"q": False, "cancel": True, "subs": True,
+                 "kinds": ["absent", "RUNNING", "FINISHED", "FAILED", "TIMEDOUT", "CANCELLED", "UNKNOWN"]},
+        "limit_quick": 2400, "limit_thorough": 60000}
 
 
 def run(ck):
